@@ -5,7 +5,7 @@
 EXTENDS AngleArith, Accumulator, TLC, Json
 
 CONSTANTS Stride,    \* sweep stride of the 1/16 degree lattice (1 = every point)
-          Part,      \* "one", "two", "trp", "acc"
+          Part,      \* "one", "two", "trp", "acc", "msc"
           NChunks,
           NHist      \* length of the accumulator histories
 VARIABLE v
@@ -53,23 +53,47 @@ VecTrp(C) ==
   \/ C = 0 /\ v' = <<"trp", <<PZ, 0, 0>>, <<NZ, 0, 0>>, "neg", 1>>
   \/ \E d \in InChunk(1..24, C), k \in {-1, 1}, sg \in SG : v' = <<"trp", Ulp(15 * d, 0, k, sg), Ulp(15 * d, 0, k, -sg), "neg", 1>>
 
-\* accumulator operations on the limb lattice
-AccOps(ty) ==
-  LET cs == IF ty = "f" THEN {1, -1, 3, -4095, 16383} ELSE {1, -1, 3, -67108863, 134217727} IN
-  {<<0, j, c>> : j \in 0..2, c \in cs} \cup {<<1, 0, 0>>, <<2, 0, 2>>, <<3, 0, 3>>, <<3, 0, -2>>}
-  \cup {<<4, 0, 1>>, <<4, 2, -3>>}
+\* helpers: polyval over small integers (every order -1..4), sq, norm on scaled Pythagorean triples, hypot3 on the axes
+Coef == -2..2
+Polys == {<<>>} \cup {<<a>> : a \in Coef} \cup {<<a, b>> : a \in Coef, b \in Coef} \cup {<<a, b, c>> : a \in Coef, b \in Coef, c \in Coef}
+         \cup {<<a, b, c, 3>> : a \in {1, -2}, b \in Coef, c \in Coef} \cup {<<a, -3, c, 1, b>> : a \in {1, -2}, b \in Coef, c \in Coef}
+VecMsc(C) ==
+  \/ \E x \in InChunk(-4..4, C), p \in Polys : v' = <<"pv", p, x>>
+  \/ \E m \in InChunk(1..4095, C), e \in {-70, -12, 0, 40}, sg \in SG : (m % 64 \in {1, 21, 63} \/ m < 64) /\ v' = <<"sq", sg * m, e>>
+  \/ \E k \in InChunk(-60..60, C), t \in Triples, sx \in SG, sy \in SG, sw \in {0, 1} : k % 6 = 0 /\ v' = <<"nrm", sx * t[1 + sw], sy * t[2 - sw], t[3], k>>
+  \/ \E m \in InChunk({1, 3, 5, 4097, 16777215}, C), e \in {-149, -30, 0, 60, 100}, n \in 1..3, sg \in SG : v' = <<"h3", n, sg * m, e>>
+
+\* accumulator operations on the limb lattice (Accumulator.tla lists the kinds)
+AccCs(ty) == IF ty = "f" THEN {1, -1, 3, -4095, 16383} ELSE {1, -1, 3, -67108863, 134217727}
+AccBig(ty) == IF ty = "f" THEN 16383 ELSE 134217727
+\* operations that change the sum: += (15 values), negate, *= int, *= T, a = y, a = Accumulator(y), -=
+AccMut(ty) ==
+  {<<0, j, c>> : j \in 0..2, c \in AccCs(ty)} \cup {<<1, 0, 0>>, <<2, 0, 2>>, <<3, 0, 3>>, <<3, 0, -2>>}
+  \cup {<<5, 0, 3>>, <<5, 2, -1>>, <<11, 1, 3>>} \cup {<<6, 0, 1>>, <<6, 1, AccBig(ty)>>}
+\* operations that only observe (probe, the six comparisons, copy construction, assignment) or whose successor is a set
+\* (remainder): last operation of a history only - they leave the sum alone, so every (state, operation) pair is still reached
+AccObs(ty) ==
+  {<<4, 0, 1>>, <<4, 2, -3>>} \cup {<<7, 0, 0>>, <<7, 0, 3>>, <<7, 0, -1>>, <<7, 2, 3>>}
+  \cup {<<9, 0, 0>>, <<10, 0, 0>>} \cup {<<8, 0, 360>>, <<8, 0, 3>>, <<8, 0, 16383>>}
+\* constructor forms: default, Accumulator a(y), Accumulator a = y
+AccCtors(ty) == {<<14, 0, 0>>} \cup {<<k, 0, 3>> : k \in {12, 13}} \cup {<<k, 1, -4095>> : k \in {12, 13}}
+                \cup {<<k, 2, 3>> : k \in {12, 13}}
 BB(ty) == IF ty = "f" THEN 15 ELSE 30
 RECURSIVE AccEval(_, _, _)
 AccEval(ops, i, E) == IF i > Len(ops) THEN E ELSE AccEval(ops, i + 1, AccApply(E, ops[i]))
+\* a history is a constructor form followed by at most NHist operations (NHist - 1 after a constructor with a value,
+\* which already is the first addend)
+AccMaxLen(ops) == IF ops[1][1] = 14 THEN NHist + 1 ELSE NHist
+AccComplete(ty, ops) == Len(ops) = AccMaxLen(ops) \/ ops[Len(ops)] \in AccObs(ty)
 
 Init == v = <<"root">>
 Next ==
   \/ /\ v = <<"root">> /\ Part # "acc" /\ \E c \in 0..(NChunks - 1) : v' = <<"chunk", c>>
-  \/ /\ v = <<"root">> /\ Part = "acc" /\ \E ty \in {"f", "d"} : v' = <<"acc", ty, <<>>>>
+  \/ /\ v = <<"root">> /\ Part = "acc" /\ \E ty \in {"f", "d"} : \E c \in AccCtors(ty) : v' = <<"acc", ty, <<c>>>>
   \/ /\ v[1] = "chunk"
-     /\ CASE Part = "one" -> VecOne(v[2]) [] Part = "two" -> VecTwo(v[2]) [] OTHER -> VecTrp(v[2])
-  \/ /\ v[1] = "acc" /\ Len(v[3]) < NHist
-     /\ \E op \in AccOps(v[2]) :
+     /\ CASE Part = "one" -> VecOne(v[2]) [] Part = "two" -> VecTwo(v[2]) [] Part = "msc" -> VecMsc(v[2]) [] OTHER -> VecTrp(v[2])
+  \/ /\ v[1] = "acc" /\ ~AccComplete(v[2], v[3])
+     /\ \E op \in AccMut(v[2]) \cup AccObs(v[2]) :
           /\ AccInRange(AccApply(AccEval(v[3], 1, AccZero), op), BB(v[2]))
           /\ v' = <<"acc", v[2], Append(v[3], op)>>
 
@@ -141,6 +165,40 @@ AccInv ==
     /\ AccNorm(AccApply(E, <<2, 0, 2>>), bb) = AccNorm(<<E[1] + E[1], E[2] + E[2], E[3] + E[3]>>, bb)
     /\ AccApply(E, <<4, 1, 5>>) = E                                                  \* a probe does not change the sum
     /\ LET n == AccNorm(E, bb) IN n[1] \in 0..(2^bb - 1) /\ n[2] \in 0..(2^bb - 1) /\ AccNorm(n, bb) = n
+    \* shape of a history: exactly one constructor form, first; an observing operation only last
+    /\ v[3][1] \in AccCtors(v[2]) /\ \A i \in 2..Len(v[3]) : v[3][i][1] \notin AccCtorKinds
+    /\ \A i \in 1..(Len(v[3]) - 1) : v[3][i] \notin AccObs(v[2])
+    \* every way a number enters other than by += is "set sum = y": the same as a default-constructed accumulator plus y
+    /\ \A k \in AccSetKinds, a \in 0..2, b \in {3, -1} :
+         AccApply(E, <<k, a, b>>) = AccApply(AccZero, <<0, a, b>>) /\ AccApply(AccApply(E, <<14, 0, 0>>), <<0, a, b>>) = AccUnit(a, b)
+    /\ \A a \in 0..2 : AccApply(AccApply(E, <<6, a, 5>>), <<0, a, 5>>) = E                 \* -= undoes +=
+    /\ \A k \in AccKeepKinds \cup AccTerminalKinds : AccApply(E, <<k, 0, 7>>) = E
+    \* comparisons: a three-way comparison, antisymmetric under negation, invariant under a common shift
+    /\ \A a \in {0, 2}, b \in {0, 3, -1} :
+         /\ AccCmp3(E, a, b, bb) \in {-1, 0, 1}
+         /\ AccCmp3(AccScale(E, -1), a, -b, bb) = -AccCmp3(E, a, b, bb)
+         /\ AccCmp3(AccApply(E, <<6, a, b>>), 0, 0, bb) = AccCmp3(E, a, b, bb)
+         /\ (AccCmp3(E, a, b, bb) = 0 <=> AccNorm(E, bb) = AccNorm(AccUnit(a, b), bb))
+         /\ AccCmpFamily(<<AccCmp3(E, a, b, bb), AccCmp3(E, a, b, bb) = 0, AccCmp3(E, a, b, bb) # 0, AccCmp3(E, a, b, bb) < 0,
+                           AccCmp3(E, a, b, bb) <= 0, AccCmp3(E, a, b, bb) > 0, AccCmp3(E, a, b, bb) >= 0>>)
+    \* remainder: a non-empty set of values in [-y/2, y/2] congruent to the sum; unchanged by adding a multiple of y
+    /\ \A y \in {3, 360, 16383} :
+         /\ AccRemSet(E, y, bb) # {}
+         /\ \A c \in AccRemSet(E, y, bb) : 2 * c <= y /\ -2 * c <= y /\ (AccResidue(E, y, bb) - c) % y = 0
+         /\ AccRemSet(AccApply(E, <<0, 0, y>>), y, bb) = AccRemSet(E, y, bb)
+         /\ AccRemSet(AccApply(E, <<6, 1, y>>), y, bb) = AccRemSet(E, y, bb)
+         /\ (AccNorm(E, bb)[3] = 0 /\ AccNorm(E, bb)[2] = 0 /\ 2 * AccNorm(E, bb)[1] < y => AccRemSet(E, y, bb) = {AccNorm(E, bb)[1]})
 
-Emit == (v[1] \in {"one", "two", "trp"} \/ (v[1] = "acc" /\ Len(v[3]) = NHist)) => PrintT(ToJson(v))
+MscInv ==
+  /\ v[1] = "pv" =>
+       LET p == v[2]  x == v[3] IN
+       /\ PolyVal(p, 0) = (IF Len(p) = 0 THEN 0 ELSE p[Len(p)])                     \* constant term
+       /\ PolyVal(p, 1) = Horner(p, 1, 1, 0)                                           \* sum of the coefficients
+       /\ \A c \in {-1, 2} : PolyVal(Append(p, c), x) = x * PolyVal(p, x) + c         \* Horner step
+       /\ (Len(p) = 1 => PolyVal(p, x) = p[1])
+       /\ PolyVal(p, x) < 2^24 /\ -PolyVal(p, x) < 2^24                             \* exact in binary32
+  /\ v[1] = "sq" => ValidN(SqN(v[2], v[3])) \/ 2 * v[3] < -149 \/ 2 * v[3] > 100
+  /\ v[1] = "nrm" => v[2] * v[2] + v[3] * v[3] = v[4] * v[4]
+
+Emit == (v[1] \in {"one", "two", "trp", "pv", "sq", "nrm", "h3"} \/ (v[1] = "acc" /\ AccComplete(v[2], v[3]))) => PrintT(ToJson(v))
 =============================================================================
